@@ -294,15 +294,23 @@ macro_rules! alt_reader {
                     }
                 }
             }
-            "read_then_iter" => {
+            h if h.ends_with("_then_iter") => {
+                // "read<k>_then_iter": k read() calls, then the records() iterator on the same reader
+                let k = h.as_bytes()[4].saturating_sub(b'0') as usize;
                 let mut rd = mk();
                 let mut r = $m::Record::new();
                 let mut go_on = true;
-                match rd.read(&mut r) {
-                    Ok(()) => {
-                        if r.is_empty() { go_on = false } else { items.push($item(&r)) }
+                for _ in 0..k {
+                    match rd.read(&mut r) {
+                        Ok(()) => {
+                            if r.is_empty() {
+                                go_on = false;
+                                break;
+                            }
+                            items.push($item(&r));
+                        }
+                        Err(e) => items.push(item_err($errk(&e))),
                     }
-                    Err(e) => items.push(item_err($errk(&e))),
                 }
                 if go_on {
                     for res in rd.records() {
@@ -701,6 +709,58 @@ fn real_write(kind: &str, recs: &[Rec], wrap: usize, via_record: bool, wcap: usi
     sink.data
 }
 
+/// A sink that takes `room` bytes and then fails hard (not Interrupted, not a short write): "disk full".
+struct FailSink {
+    room: usize,
+}
+impl std::io::Write for FailSink {
+    fn write(&mut self, buf: &[u8]) -> std::io::Result<usize> {
+        if self.room == 0 {
+            return Err(std::io::Error::new(std::io::ErrorKind::Other, "no space left on device (scripted)"));
+        }
+        let n = buf.len().min(self.room);
+        self.room -= n;
+        Ok(n)
+    }
+    fn flush(&mut self) -> std::io::Result<()> {
+        Ok(())
+    }
+}
+
+/// Another writer object W1 of this thread runs into a hard I/O error after `room` bytes. Nothing about W1 is
+/// judged; what matters is that the NEXT writer (a fresh object on a healthy sink) is not affected.
+fn write_fail_event(log: &mut Log, kind: &str, recs: &[Rec], wrap: usize, wcap: usize, room: usize) {
+    log.call("write_fail", json!({"wrap": wrap, "wcap": wcap, "room": room}), || {
+        let mut sink = FailSink { room };
+        let mut errs = 0;
+        if kind == "fasta" {
+            let mut w = fasta::Writer::with_capacity(wcap.max(1), &mut sink);
+            if wrap > 0 {
+                w.set_linewrap(Some(wrap));
+            }
+            for r in recs {
+                if w.write(s(&r.id), r.desc.as_deref().map(s), &r.seq).is_err() {
+                    errs += 1;
+                }
+            }
+            if w.flush().is_err() {
+                errs += 1;
+            }
+        } else {
+            let mut w = fastq::Writer::with_capacity(wcap.max(1), &mut sink);
+            for r in recs {
+                if w.write(s(&r.id), r.desc.as_deref().map(s), &r.seq, &r.qual).is_err() {
+                    errs += 1;
+                }
+            }
+            if w.flush().is_err() {
+                errs += 1;
+            }
+        }
+        json!({"errs": errs})
+    });
+}
+
 fn write_event(log: &mut Log, kind: &str, recs: &[Rec], wrap: usize, via_record: bool, wcap: usize, sink: usize, ctor: usize) -> Vec<u8> {
     let intr = take_intr(log, false, true);
     let mut written: Vec<u8> = vec![];
@@ -1093,6 +1153,17 @@ pub fn drive(log: &mut Log) {
         let parsers: [&str; 2] = [kind, "either"];
         for (sidx, &(layk, wrap, crlf, wcap, sink, ctor)) in streams.iter().enumerate() {
             let b: Vec<u8> = if layk == 1 {
+                if sidx >= 1 && nrec > 0 {
+                    // W1 fails hard somewhere inside its records; then the fresh writer below does its round trip
+                    let total = wire(kind, &recs, wrap, false).len();
+                    let fwrap = if kind == "fasta" { [wrap.max(1), 4, 3, 0][(i as usize + sidx) % 4] } else { 0 };
+                    let room = rng.below(total as u64 + 1) as usize;
+                    write_fail_event(log, kind, &recs, fwrap, [1usize, 8, 3][sidx % 3], room);
+                    log.oblige("fresh_writer_after_another_writers_hard_error");
+                    if kind == "fasta" && fwrap > 0 && wrap > 0 {
+                        log.oblige("hard_error_in_wrapped_block_then_wrapped_write");
+                    }
+                }
                 let via_record = rng.coin();
                 set_intr(sidx + i as usize);
                 let written = write_event(log, kind, &recs, wrap, via_record, wcap, sink, ctor);
@@ -1141,7 +1212,10 @@ pub fn drive(log: &mut Log) {
             }
             // the same stream through the other ways to obtain records (copies, mixed APIs, adapters, files)
             if sidx == 0 {
-                for (hi, how) in ["copies", "read_then_iter", "adapters", "from_file"].iter().enumerate() {
+                let rk = ["read0_then_iter", "read1_then_iter", "read2_then_iter", "read3_then_iter"];
+                log.oblige(["reads0_then_records", "reads1_then_records", "reads2_then_records", "reads3_then_records"][i as usize % 4]);
+                let hows = ["copies", rk[i as usize % 4], rk[(i as usize + 1 + i as usize / 4) % 4], "adapters", "from_file"];
+                for (hi, how) in hows.iter().enumerate() {
                     let cap = CAPS[(i as usize + hi) % CAPS.len()];
                     let sched = gen_sched(&mut rng, &b, i + hi as u64, log);
                     let lay = Lay { lay: layk, wrap: wrap as i64, crlf: crlf as i64, cut: -1 };
@@ -1150,9 +1224,9 @@ pub fn drive(log: &mut Log) {
                     note_items(log, &r);
                     log.oblige(match *how {
                         "copies" => "records_as_copies_clone_serde_clone_from",
-                        "read_then_iter" => "read_then_records_on_one_reader",
                         "adapters" => "records_through_nth_step_by_count_last",
-                        _ => "reader_from_file",
+                        "from_file" => "reader_from_file",
+                        _ => "read_then_records_on_one_reader",
                     });
                 }
                 let lay = Lay { lay: layk, wrap: wrap as i64, crlf: crlf as i64, cut: -1 };
@@ -1269,6 +1343,42 @@ pub fn drive(log: &mut Log) {
         set_intr(i as usize + 2);
         let r = parse_event(log, "either", "iter", &written, 16, &[700, 3], &lay);
         note_items(log, &r);
+    }
+
+    // ---------------- (b3) histories across writer objects of one thread: W1 hits a hard error after `room` bytes,
+    // room swept over every byte position of its output; then a fresh W2 on a healthy sink does a round trip
+    let nwerr = log.opts.n(8, 32);
+    for i in 0..nwerr {
+        case += 1;
+        if !log.mine(case) {
+            continue;
+        }
+        let mut rng = Rng::new(seed, 16, case);
+        let kind = if i % 4 == 3 { "fastq" } else { "fasta" };
+        let recs: Vec<Rec> = (0..2)
+            .map(|_| {
+                let mut r = gen_rec(&mut rng, kind, 16, false, log);
+                r.id.truncate(2);
+                r.desc = None;
+                r
+            })
+            .collect();
+        let cfg = json!({"cls": "rt", "kind": kind, "recs": recs.iter().map(rec_json).collect::<Vec<_>>()});
+        if !log.begin("werr", cfg) {
+            continue;
+        }
+        let w1 = if kind == "fasta" { [4usize, 3, 1, 0][i as usize % 4] } else { 0 };
+        let w2 = if kind == "fasta" { [3usize, 4, 0, 7][(i as usize / 2) % 4] } else { 0 };
+        let total = wire(kind, &recs, w1, false).len();
+        for room in 0..=total {
+            write_fail_event(log, kind, &recs, w1, [8usize, 1, 3][room % 3], room);
+            let written = write_event(log, kind, &recs, w2, room % 2 == 0, if room % 4 == 0 { 5 } else { 0 }, 0, 0);
+            let lay = Lay { lay: 1, wrap: w2 as i64, crlf: 0, cut: -1 };
+            let r = parse_event(log, if room % 5 == 4 { "either" } else { kind }, "iter", &written, 8192, &[], &lay);
+            note_items(log, &r);
+        }
+        log.oblige("fresh_writer_after_another_writers_hard_error");
+        log.oblige("hard_error_swept_over_every_byte_of_the_record");
     }
 
     // ---------------- (e) damaged valid streams (ASCII): error paths on realistic input
